@@ -18,8 +18,38 @@ import (
 // return: they build the error value and have no other effect.
 var extraPure func(ssa.CallInstruction) bool
 
-func pureFailCall(c ssa.CallInstruction) bool {
+func pureFailCall(c ssa.CallInstruction) bool { return pureFailCallDepth(c, 0) }
+
+// a helper of the module that does nothing but what is allowed on a failure edge anyway (`removeTemp(name)` around a
+// best-effort os.Remove) is allowed as well
+func pureHelper(f *ssa.Function, depth int) bool {
+	if f == nil || len(f.Blocks) == 0 || f.Pkg == nil || !strings.HasPrefix(f.Pkg.Pkg.Path(), load.Module) || depth > 2 {
+		return false
+	}
+	for _, b := range f.Blocks {
+		for _, in := range b.Instrs {
+			switch x := in.(type) {
+			case *ssa.Go, *ssa.Defer, *ssa.Send, *ssa.MapUpdate, *ssa.Panic:
+				return false
+			case *ssa.Store:
+				if _, local := x.Addr.(*ssa.Alloc); !local {
+					return false
+				}
+			case ssa.CallInstruction:
+				if !pureFailCallDepth(x, depth+1) {
+					return false
+				}
+			}
+		}
+	}
+	return true
+}
+
+func pureFailCallDepth(c ssa.CallInstruction, depth int) bool {
 	if extraPure != nil && extraPure(c) {
+		return true
+	}
+	if _, isCall := c.(*ssa.Call); isCall && pureHelper(flow.Callee(c), depth) {
 		return true
 	}
 	if flow.CalleeIs(c, "fmt", "Errorf") || flow.CalleeIs(c, "errors", "New") || flow.CalleeIs(c, "fmt", "Sprintf") || flow.CalleeIs(c, "strings", "Join") {
